@@ -35,6 +35,18 @@ ASSUMPTIONS = [
     "'padding'), and A Q[:, :m] = Q H is checked on all m columns",
     "stopping at breakdown (upper bound of the step count, zero padding after breakdown) is asserted only when "
     "tol >= 1e3*eps(dtype); 'fewer steps than min(max_iters, n, KDim)' is always asserted",
+    "scale-equivariance family (attr op_scale): scaled copies c*A, c in {1e-9, 1e-30 (double precision only: the "
+    "squares of the entries underflow in single precision), 1e6, 2^-20}, of a deterministic subset of the catalog / "
+    "exact-breakdown / by-construction / random items (single and batched, default tolerance = argument omitted and "
+    "explicit ones).  They carry the attrs of the unscaled original plus op_scale and are checked by every clause of "
+    "the original with tolerances relative to ||cA|| (expected eigenvalues and TLC's exact H multiplied by c, same "
+    "KDim / counts); clause scale_equivariance compares with the run on A in the same dtype: same number of steps / "
+    "columns (asserted when the stop is visible - tol >= 1e3*eps - or c is a power of two, and the start vector is not "
+    "in the null space), same leading basis vectors and H = c * H(A) up to the relative tolerance (1e-12 on "
+    "everything when c is a power of two).  TLC side: Krylov!ScaleEquivariantAt / MC_Krylov!ScaleEquivariant check on "
+    "every exact catalog case that c*A (c = 1/4, 8; 32-bit integers) has the same exact basis, c*H, the same breakdown "
+    "step and expected observables; exact-breakdown cases are scaled by the power of two only (the run stays exact, "
+    "tol = 0 included)",
     "exact-breakdown family (attr exact=true): operators / start vectors with small integer entries for which TLC "
     "computes the Arnoldi factorisation exactly over Q(i) and certifies that it is exact in binary floating point "
     "(Krylov!ExactArnoldiOK: dyadic entries, perfect-square norms, zero residual exactly at KDim).  For these the "
@@ -126,7 +138,8 @@ def check_single(A, v, Qd, Hd, m, tol, dt, kdim, detectable, K=None, assert_coun
     if trunc and not assert_count and detectable and s_obs <= cap:
         # element of a batch: the batch may go on, this element must not (zero columns after its own exhaustion)
         out.append(("padding", f"element continued for {s_obs} steps after its Krylov space was exhausted at "
-                    f"{s_exp} (non-zero columns of H up to {s_obs - 1})", {"which": "continued_after_exhaustion"}))
+                    f"{s_exp} (non-zero columns of H up to {s_obs - 1})", {"which": "continued_after_exhaustion",
+                                                                                   "start_in_nullspace": kf.null_start(hs, A)}))
     me = s_exp if trunc else m
     if trunc:
         Q, H = Q[:, :me + 1], H[:me + 1, :me]
@@ -495,7 +508,8 @@ def run_family(item, A, vs, kdims, Ks, wants, etol_rel, detect_ok, ms, hss=None,
                     if s_obs < e or s_obs > min(m, n) or (s_obs > e and detectable):
                         viol.append(mk_viol(item, "column_count", f"batched run made {s_obs} steps, expected "
                                             f"min(max_iters, n, max KDim) = {e}", m,
-                                            dict(uni, excess="more" if s_obs > e else "fewer"), n, kmax, True,
+                                            dict(uni, excess="more" if s_obs > e else "fewer",
+                                                 start_in_nullspace=any(kf.null_start(h, A_t) for h in hss)), n, kmax, True,
                                             "arnoldi", dt, tol))
                 Q1A = H1A = s1 = None
                 if sc is not None:
@@ -724,7 +738,70 @@ def plan_struct(quick):
     return items
 
 
+def plan_scaled(items, quick):
+    """Scale-equivariance family: scaled copies c*A of a deterministic subset of the items planned above (catalog,
+    exact-breakdown, by-construction and random cases; single and batched), c in kf.SCALES where the dtype can
+    represent the run (1e-30: squares of the entries underflow in single precision), with the default tolerance
+    (argument omitted) and explicit ones.  Every clause of the original applies with tolerances relative to ||cA||;
+    clause scale_equivariance compares with the run on A."""
+    out = []
+    seen = {}
+    nonx = ("h3pd:", "h3cind:", "h4rep:", "g2jordan:", "g3nn:", "g3sing:", "g4jordan:", "g4circ:", "g3plain:", "h1:")
+    starts = (":gen", ":ev1", ":ev1+2", ":batch-mixed", ":batch-kdim2", "h3cind:ev3", "h3cind:batch-kdim1")
+    xm = ("x1c:", "xperm4b:", "xdiag3z:", "xblk4:", "xnil4:") if quick else \
+        ("x1c:", "xperm4:", "xperm4b:", "xmono3c:", "xdiag3z:", "xblk4:", "xblk4c:", "xid4:", "xnil4:")
+    sn = ("struct-perm-batch-n7", "struct-perm-c5-n64", "struct-block-n7", "struct-shift-batch", "struct-cmono-n6",
+          "struct-diag-n200")
+    k = 0
+    for it in items:
+        nm, dt = it["name"], it["dt"]
+        if it["src"] == "catalog" and not it.get("exact"):
+            if not (nm.startswith(nonx) and nm.endswith(starts)):
+                continue
+        elif it["src"] == "catalog":
+            if not nm.startswith(xm) or (quick and (it["tol"] != 0 or dt in ("f32", "c128") and it["cases"][0]["real"])):
+                continue
+        elif it["src"] == "struct":
+            if not nm.startswith(sn) or (quick and dt != it["dts"][0]):
+                continue
+        else:
+            if "reorth" in nm or it["kind"].startswith("herm") or it["n"] not in ((5, 30, 200) if quick else
+                                                                                   (1, 2, 5, 13, 30, 200)):
+                continue
+            if quick and (it["vkind"] == "eigvec" or it["kind"] == "dense" and "batch" not in nm):
+                continue
+        key = (nm, dt)      # one set of scaled copies per (case, dtype): derived from the first tolerance planned
+        if key in seen:
+            continue
+        seen[key] = True
+        lo = dt in ("f32", "c64")
+        scs = [c for c in kf.SCALES if not (lo and c < 1e-20)]      # 1e-30: squares underflow in single precision
+        if it.get("exact"):
+            scs = [c for c in scs if kf.is_pow2(c)]       # the run stays exact in floating point: tol = 0 included
+        if quick:           # one factor per (case, dtype), rotating
+            scs = [scs[k % len(scs)]]
+        for c in scs:
+            k += 1
+            cp = dict(it)
+            cp["op_scale"] = c
+            cp["alg_obj"] = False
+            if not it.get("exact") and k % 2 == 0:
+                cp["tol"] = None        # default tolerance (argument omitted)
+            elif not it.get("exact") and k % 4 == 1:
+                cp["tol"] = 1e-3 if lo else 1e-4
+            if it["src"] == "random" and it["n"] > 13:
+                cp["ms"] = it["ms"][-3:] if quick else it["ms"][-5:]
+                cp["eigs"] = False
+            out.append(cp)
+    return out
+
+
 def plan(cs, tier, seed):
+    items = plan_unscaled(cs, tier, seed)
+    return items + plan_scaled(items, tier == "quick")
+
+
+def plan_unscaled(cs, tier, seed):
     items = []
     quick = tier == "quick"
     by_mat = {}
@@ -857,7 +934,8 @@ def _run(tier, t0, proof):
         common.cleanup(wd)
     viol, n_viol_raw = kf.cap_violations(viol)
     cat_items = [it for it in items if it["src"] == "catalog"]
-    samples = [f"{it['name']} {it['dt']} tol={it['tol']:g}" for it in items[:: max(1, len(items) // 6)][:6]]
+    samples = [f"{it['name']} {it['dt']} tol={kf.tol_eff(it):g}" + (f" scale={it['op_scale']:g}" if it.get("op_scale") else "")
+               for it in items[:: max(1, len(items) // 6)][:6]]
     cov = {
         "states": stats["states"] + tres.distinct, "transitions": stats["transitions"] + tres.states,
         "traces_validated_against_impl": len(traces_v),
@@ -870,7 +948,15 @@ def _run(tier, t0, proof):
         "exact_breakdown_catalog_cases": len([c for c in cs if c.get("exact")]),
         "exact_breakdown_items": len([it for it in items if it.get("exact")]),
         "exact_breakdown_items_tol0": len([it for it in items if it.get("exact") and it["tol"] == 0]),
-        "exact_breakdown_struct_items": len([it for it in items if it["src"] == "struct"]),
+        "exact_breakdown_struct_items": len([it for it in items if it["src"] == "struct" and not it.get("op_scale")]),
+        "scaled_items": len([it for it in items if it.get("op_scale")]),
+        "scaled_items_by_scale": {f"{c:g}": len([it for it in items if it.get("op_scale") == c]) for c in kf.SCALES},
+        "scaled_items_batched": len([it for it in items if it.get("op_scale") and (len(it.get("cases", [])) > 1
+                                                                                   or it.get("batch", 1) > 1
+                                                                                   or len(it.get("starts", [])) > 1)]),
+        "scaled_items_default_tol": len([it for it in items if it.get("op_scale") and it["tol"] is None]),
+        "scaled_traces_validated": len([t for t in traces_v if t.get("sc") is not None]),
+        "tlc_scale_equivariant_cases": stats.get("scale_equivariant_cases"),
         "exact_traces_validated": len([t for t in traces_v if t.get("kd", 0) > 0]),
         "exact_traces_validated_tol0": len([t for t in traces_v if t.get("kd", 0) > 0 and t.get("tol") == 0]),
         "mc_krylov_states": stats["mc_krylov_states"], "mc_loopcontrol_states": stats["mc_loopcontrol_states"],
